@@ -329,9 +329,94 @@ pub fn rel_case(c: &RelCase, obs: &mut Obs) -> PResult {
     Ok(())
 }
 
+/// unsigned element types: A + B and A - B where every member result is representable (no negation available,
+/// so only the interval-interval operators and + - * / by a non-negative scalar are exercised)
+#[derive(Clone, Debug, Serialize, Deserialize)]
+pub struct UnsignedCase {
+    /// u8 u32 usize
+    pub ty: String,
+    /// add sub (intervals), sadd ssub smul sdiv (scalar k)
+    pub op: String,
+    pub a: MI,
+    pub b: MI,
+    pub k: u32,
+}
+macro_rules! unsigned_impl {
+    ($name:ident, $t:ty) => {
+        fn $name(c: &UnsignedCase, obs: &mut Obs) -> PResult {
+            let mk = |m: &MI| -> Interval<$t> {
+                match m.kind {
+                    0 => Interval::TwoSided(m.a as $t, m.b as $t),
+                    1 => Interval::UpperOneSided(m.a as $t),
+                    _ => Interval::LowerOneSided(m.b as $t),
+                }
+            };
+            let (ia, ib) = (mk(&c.a), mk(&c.b));
+            let k = c.k as $t;
+            let cls = format!("unsigned/{}/{}-{}", c.op, c.a.kind_name(), c.b.kind_name());
+            let sig = format!("C13/{cls}");
+            // expected hull from the model in i64; skip when any member result is negative (unrepresentable)
+            let (alo, ahi, blo, bhi) = (c.a.lo() as i64, c.a.hi() as i64, c.b.lo() as i64, c.b.hi() as i64);
+            let (ninf, pinf) = (NEG_INF as i64, POS_INF as i64);
+            let (lo, hi): (Option<i64>, Option<i64>) = match c.op.as_str() {
+                "add" => (if alo == ninf || blo == ninf { None } else { Some(alo + blo) }, if ahi == pinf || bhi == pinf { None } else { Some(ahi + bhi) }),
+                "sub" => (if alo == ninf || bhi == pinf { None } else { Some(alo - bhi) }, if ahi == pinf || blo == ninf { None } else { Some(ahi - blo) }),
+                "sadd" => (if alo == ninf { None } else { Some(alo + c.k as i64) }, if ahi == pinf { None } else { Some(ahi + c.k as i64) }),
+                "ssub" => (if alo == ninf { None } else { Some(alo - c.k as i64) }, if ahi == pinf { None } else { Some(ahi - c.k as i64) }),
+                "smul" => (if alo == ninf { None } else { Some(alo * c.k as i64) }, if ahi == pinf { None } else { Some(ahi * c.k as i64) }),
+                _ => (if alo == ninf { None } else { Some(alo / c.k as i64) }, if ahi == pinf { None } else { Some(ahi / c.k as i64) }),
+            };
+            // a lower one-sided interval of an unsigned type has members down to 0: the finite bounds decide representability
+            if lo.is_none() && hi.is_none() {
+                obs.exclude("interval op whose image is the whole line (documented panic; C11)");
+                return Ok(());
+            }
+            if lo.map(|v| v < 0).unwrap_or(false) || hi.map(|v| v < 0).unwrap_or(false) || c.a.kind == 2 && c.op.ends_with("sub") || (c.op == "sub" && (c.b.kind == 1 || c.a.kind == 2)) {
+                obs.exclude("unsigned result not representable (outside the property)");
+                return Ok(());
+            }
+            obs.eval();
+            obs.class(&cls);
+            obs.nontrivial(&(&c.ty, &c.op, c.a, c.b, c.k));
+            let want: Interval<$t> = match (lo, hi) {
+                (Some(l), Some(h)) => Interval::TwoSided(l as $t, h as $t),
+                (Some(l), None) => Interval::UpperOneSided(l as $t),
+                (None, Some(h)) => Interval::LowerOneSided(h as $t),
+                _ => unreachable!(),
+            };
+            let r = guard(|| match c.op.as_str() {
+                "add" => ia + ib,
+                "sub" => ia - ib,
+                "sadd" => ia + k,
+                "ssub" => ia - k,
+                "smul" => ia * k,
+                _ => ia / k,
+            });
+            match r {
+                Ok(r) => {
+                    ensure!(r == want, sig, "{ia:?} {} {} = {r:?}, the image of the set is {want:?} ({})", c.op, if c.op.starts_with('s') { format!("{k}") } else { format!("{ib:?}") }, c.ty);
+                    Ok(())
+                }
+                Err(p) => crate::engine::fail(sig, format!("{ia:?} {} {} panicked although the result {want:?} is representable in {}: {p}", c.op, if c.op.starts_with('s') { format!("{k}") } else { format!("{ib:?}") }, c.ty)),
+            }
+        }
+    };
+}
+unsigned_impl!(unsigned_u8, u8);
+unsigned_impl!(unsigned_u32, u32);
+unsigned_impl!(unsigned_usize, usize);
+pub fn unsigned_case(c: &UnsignedCase, obs: &mut Obs) -> PResult {
+    match c.ty.as_str() {
+        "u8" => unsigned_u8(c, obs),
+        "u32" => unsigned_u32(c, obs),
+        "usize" => unsigned_usize(c, obs),
+        t => crate::engine::fail("INFRA/harness_panic", format!("unknown type {t}")),
+    }
+}
+
 pub fn run(run: &mut Run) {
     run.technique = "bounded exhaustive enumeration over an integer box and dyadic floats; oracle = exact image of the denoted set (member-wise soundness, attained bounds, kind)".into();
-    run.rule = "all 63 intervals with bounds in [-4,4] x all scalars in [-4,4] for + - * / and negation, all ordered interval pairs for A+B / A-B, in i32, i64 (scaled), f64 (unit 0.5) and f32 (unit 0.25); relative_to over non-negative intervals x strictly positive references on three dyadic grids; every case is non-trivial; distinct = (type, op, operands)".into();
+    run.rule = "all 63 intervals with bounds in [-4,4] x all scalars in [-4,4] for + - * / and negation, all ordered interval pairs for A+B / A-B, in i32, i64 (scaled), f64 (unit 0.5) and f32 (unit 0.25); the representable part of the same over u8 / u32 / usize with bounds 0..6; relative_to over non-negative intervals x strictly positive references on three dyadic grids; every case is non-trivial; distinct = (type, op, operands)".into();
     let all = all_intervals(-B, B);
     for ty in ["i32", "i64", "f64", "f32"] {
         for op in ["add", "sub", "mul", "div", "neg"] {
@@ -356,6 +441,27 @@ pub fn run(run: &mut Run) {
             }
         }
     }
+    // unsigned element types
+    let uall = all_intervals(0, 6);
+    for ty in ["u8", "u32", "usize"] {
+        for a in &uall {
+            for b in &uall {
+                for op in ["add", "sub"] {
+                    run.case("unsigned", &UnsignedCase { ty: ty.into(), op: op.into(), a: *a, b: *b, k: 0 }, unsigned_case);
+                }
+            }
+            for k in 0u32..=6 {
+                for op in ["sadd", "ssub", "smul", "sdiv"] {
+                    if op == "sdiv" && k == 0 {
+                        continue;
+                    }
+                    run.case("unsigned", &UnsignedCase { ty: ty.into(), op: op.into(), a: *a, b: MI::two(0, 0), k }, unsigned_case);
+                }
+            }
+        }
+    }
+    run.require_class("unsigned/sub/upper-two");
+    run.require_class("unsigned/add/two-upper");
     // relative_to
     let nonneg: Vec<MI> = all_intervals(0, 6).into_iter().filter(|m| m.kind != 2).collect();
     let pos: Vec<MI> = all_intervals(1, 6).into_iter().filter(|m| m.kind != 2).collect();
@@ -387,6 +493,7 @@ pub fn replay(sub: &str, v: &Value, obs: &mut Obs) -> Option<PResult> {
         "scalar" => scalar_case(&de(v), obs),
         "pair" => pair_case(&de(v), obs),
         "relative_to" => rel_case(&de(v), obs),
+        "unsigned" => unsigned_case(&de(v), obs),
         _ => return None,
     })
 }
